@@ -27,6 +27,9 @@ CLAIMED = {
  "C07": ("model_checking", "explicit-state BFS over create/delete/mkdir/open/close histories with the full mode x target x name matrix applied at every state (one extra replay per cell)",
          "At every reachable state within the depth bound every cell of {6 modes} x {missing, file, read-only file, directory, open file, second directory handle} x {valid and invalid names} plus write-on-read-only, delete and open_dir is applied to the real code; the outcome class must be the documented one and a refused call must leave the medium bit-identical.",
          MC_NOTE, "DESIGN.md section 5 C07"),
+ "C08": ("model_checking", "explicit-state BFS over open/close histories for each limit configuration (one monomorphisation each), from empty and from nearly-full tables, with stale-handle and re-entrancy probes at every state",
+         "For 14 (quick) / 77 (thorough) limit configurations every open/close history up to the depth bound is run on the real VolumeManager against a small handle/limit model (distinct handles, matching too-many errors exactly at the limit, slot freed by close, close_volume refusal, no double open, has_open_handles truthful, handle counter wrap); at every state of the probe configurations every closed handle is fed to every method of its kind and all 23 Result-returning methods (thorough: plus the wrapper types and embedded-io impls) are called from inside iterate_dir / iterate_dir_lfn callbacks and must return LockError without effect.",
+         MC_NOTE + " The check's engine is the separate sdmmc-mc-limits(-quick) binary.", "DESIGN.md section 5 C08"),
  "C09": ("fault_enumeration", "crash-prefix enumeration: every prefix of the block-write log of every transition of an explicit-state BFS, judged by a fresh mount and an independent reader",
          "For every transition explored (all mutation histories up to the depth bound) and every prefix of its write log, the crash image must still show every file flushed before the transition (and not modified by it) with at least the flushed length and exactly the flushed bytes, through refat and through a fresh mount of the crate.",
          MC_NOTE, "DESIGN.md section 5 C09"),
@@ -69,14 +72,14 @@ for p in props:
         "thorough_cmd": f"./check {pid} thorough",
         "evidence_file": f"/verif/evidence/{pid}.json",
         "replay_cmd_template": "./check --replay {path}",
-        "engine": "sdmmc-mc",
+        "engine": "sdmmc-mc-limits" if pid == "C08" else "sdmmc-mc",
         "level_claimed": {"category": level, "text": text, "design_ref": ref},
         "level_note": note,
         "technique": technique,
     })
 m = {
     "version": 1,
-    "setup_cmd": "cd /verif/harness && CARGO_NET_OFFLINE=true cargo build --release --offline",
+    "setup_cmd": "cd /verif/harness && CARGO_NET_OFFLINE=true cargo build --release --offline --bin sdmmc-mc --bin sdmmc-mc-limits-quick",
     "hooks": {
         "guard": "cargo feature verif-hooks (off by default)",
         "enable": "the harness depends on /repo with default-features = false, features = [\"verif-hooks\"]",
